@@ -390,7 +390,11 @@ class RefModel:
             if nid in self.unspec or (iv is not None and None in iv):
                 o = [None] * len(n['ow'])       # unspecified (e.g. downstream of a division by zero)
             else:
-                o = k.outs(n['p'], self.state[nid], iv, self.iw[nid], n['ow'])
+                try:
+                    o = k.outs(n['p'], self.state[nid], iv, self.iw[nid], n['ow'])
+                except NotImplementedError:
+                    o = [None] * len(n['ow'])   # block without a catalogue model: only twin-based oracles apply
+                    self.unspec.add(nid)
             for j, v in enumerate(o):
                 vals['n%d.%d' % (nid, j)] = v
         return vals
